@@ -144,7 +144,11 @@ func (f *Divide) Call(s *slip.Scope, args slip.List, depth int) (quot slip.Objec
 			var zz big.Int
 			q, r := zz.QuoRem((*big.Int)(quot.(*slip.Bignum)), (*big.Int)(ta), &z)
 			if r.Sign() == 0 {
-				quot = (*slip.Bignum)(q)
+				if q.IsInt64() {
+					quot = slip.Fixnum(q.Int64())
+				} else {
+					quot = (*slip.Bignum)(q)
+				}
 			} else {
 				var zr big.Rat
 				quot = (*slip.Ratio)(zr.SetFrac((*big.Int)(quot.(*slip.Bignum)), (*big.Int)(ta)))
